@@ -14,8 +14,10 @@ Definition mtype_eqb (a b : mtype) : bool :=
   | _, _ => false
   end.
 
-(* epochMs(val.Time()): t.UnixNano()/1e6 on the time built from ms; UnixNano wraps *)
-Definition epoch_ms (ms : Z) : Z := Z.quot (wrap64 (ms * 1000000)) 1000000.
+(* epochMs(val.Time()): t.UnixMilli() on the time built from ms, which is ms again for every int64 (before fix
+   "epochMs" it was t.UnixNano()/1e6, which wraps outside the years 1678..2262: kept as epoch_ms_nano) *)
+Definition epoch_ms (ms : Z) : Z := ms.
+Definition epoch_ms_nano (ms : Z) : Z := Z.quot (wrap64 (ms * 1000000)) 1000000.
 
 (* ---- encoder side: extractMetricsFromValue ---- *)
 Fixpoint flatten (v : value) : list (mtype * Z) :=
